@@ -46,6 +46,85 @@ CHECKS: dict[str, tuple[str, str, str, str, str]] = {
         "untraced evaluation while it raises, i.e. during, not after, the exception). Single thread.",
         "5/C05",
     ),
+    "C06": (
+        "exploration",
+        "bounded-exhaustive program enumeration against a definition-based post-dominance oracle",
+        "For every code object of all 4 849 grammar programs with <= 3 statement nodes (175 723 with <= 4 in "
+        "thorough), 70 construct seeds and 58 pure-Python stdlib modules, the CFG and CDG built by the real "
+        "transformer are compared with an oracle computed from the path definition of post-domination and the "
+        "Ferrante definition of control dependence: single entry/exit, reachability, every labelled edge, root "
+        "dependence and get_control_dependencies. Graphs <= 60 nodes (400 thorough) are decided by the path "
+        "definition; larger ones by an iterative post-dominator computation cross-validated on all smaller graphs.",
+        "CFG edge labels are taken from the real CFG (label correctness vs. execution is C03). No coverage "
+        "exclusions (C08). CPython 3.12 bytecode; opcodes covered are listed in the evidence. Trusted: compile/dis "
+        "and the bytecode library's block splitting.",
+        "5/C06",
+    ),
+    "C10": (
+        "exploration",
+        "bounded-exhaustive abstract-trace enumeration through real chromosomes and fitness functions",
+        "Every abstract execution trace over 8 (quick) / 10 (thorough) real registries (hit counts 0/1/>=2 per "
+        "predicate, distances from {0, 0.5, 1, 7, inf} under the tracer invariant, every consistent code-object "
+        "subset, every covered/checked line subset) is evaluated by every fitness and coverage function class and "
+        "every goal class, directly and through ComputationCache, alone, paired with every alphabet trace and in "
+        "all alphabet triples merged by the real analyze_results: finite non-negative fitness, coverage in [0,1], "
+        "covered <=> fitness 0, cache agreement, suite branch fitness 0 <=> coverage 1, is_covered never raises.",
+        "Traces are synthesised (over-approximating what executions can produce); count 2 stands for >= 2; NaN / "
+        "negative distances belong to C04. Trusted: the FakeExecutor and re-registration of real CFG/CDG metadata.",
+        "5/C10",
+    ),
+    "C11": (
+        "model_checking",
+        "explicit-state search over real ExecutionTrace.merge, all orders and bracketings",
+        "All ordered sequences with repetition of <= 3 (quick) / <= 4 (thorough) single-test traces from an 8-35 "
+        "trace alphabet per registry are merged by the real analyze_results and by every binary bracketing of "
+        "ExecutionTrace.merge; each result is compared with every other arrangement of the same multiset and with a "
+        "union/sum/min reference, arguments are re-checked for mutation, and every suite fitness / coverage function "
+        "is evaluated for S and S+t (monotonicity). States = merged projections, transitions = merges.",
+        "Order independence is required of the coverage/fitness-relevant projection only (not of instruction order "
+        "or ordered-set iteration order). Alphabet assumptions as for C10.",
+        "5/C11",
+    ),
+    "C14": (
+        "exploration",
+        "bounded-exhaustive populations and selection grids against brute-force Pareto oracles",
+        "Every ordered population of up to 4 (thorough 5) identity-equal stub chromosomes with fitness vectors over "
+        "{0,1,2}^g (g <= 3) is ranked by the real RankBasedPreferenceSorting under population settings 1/2/50 and "
+        "under EVERY sequence of random tie-break answers, and compared with fronts recomputed from the Pareto "
+        "definition; crowding distances must lie in [0,1); DominanceComparator / PreferenceSortingComparator are "
+        "checked on all type pairs; RankSelection.get_index is evaluated for all n in 1..64 x 9 biases in [1.0, 3.0] "
+        "x 4099 draws incl. the largest float below 1 (index in range, no exception, better ranks never drawn less).",
+        "Lenient readings: ranking may stop after `population` individuals; 'best' = minimal fitness; grid histogram "
+        "monotone up to one draw of quantisation. Largest g=3 size covered as multisets in one presentation order. "
+        "Trusted: a 10-line Pareto oracle and the monkeypatched next_bool/next_float seam (any other draw raises).",
+        "5/C14",
+    ),
+    "C25": (
+        "exploration",
+        "bounded-exhaustive hierarchy x type enumeration against algebraic laws",
+        "All inheritance DAGs on <= 3 (quick) / <= 4 (thorough) user classes in every linearisable base order are "
+        "generated as real modules and analysed by generate_test_cluster, with and without the numeric tower; for "
+        "every ordered pair of all ~630-830 proper types of depth <= 2 the real is_subtype / is_maybe_subtype / "
+        "subtype_distance are evaluated and reflexivity, transitivity over ALL triples, T <: Any, the union law, "
+        "is_subclass <=> issubclass (+tower), is_subtype => is_maybe_subtype, distance-defined => maybe-subtype "
+        "and distance(T,T) = 0 are decided on the complete matrices.",
+        "Distance read as subtype_distance(supertype=T, subtype=S). StringSubtype and deeper nesting out of scope. "
+        "Trusted: CPython issubclass and the generated modules.",
+        "5/C25",
+    ),
+    "C26": (
+        "model_checking",
+        "explicit-state search over real clusters with a differential fresh-rebuild oracle",
+        "Two real clusters per generated hierarchy module (one per provider class) receive identical event "
+        "histories: add_generator, add_subclass_edge, update_return_type and queries of every requested type on both "
+        "providers, the cluster and the TypeSystem (select_generator_for driven through every candidate). All "
+        "histories of <= 3 events (quick) are explored modulo commuting blocks; after each history every cacheable "
+        "answer is compared with a fresh TypeSystem/provider rebuilt from the final graph, every offer must be a "
+        "maybe-subtype of the request and both providers must offer the same set.",
+        "State restored between histories by resetting tables and clearing functools caches (cross-checked against "
+        "brand-new clusters on a subset). Requested types are a 12-16 type subset of the C25 universe.",
+        "5/C26",
+    ),
     "C15": (
         "model_checking",
         "stateless deviation-bounded choice-tree exploration of the real TestFactory/mutation/crossover",
